@@ -18,6 +18,10 @@ use std::cmp::Ordering;
 
 thread_local! {
     static RECORDED: RefCell<Vec<String>> = RefCell::new(Vec::new());
+    /// Set when the generated arguments contain numbers a few ulps apart: those are then
+    /// passed through the document (binary doubles), never spelled as literals, because
+    /// serde_json's fast float parser may be an ulp off and would merge or reorder them.
+    static CLOSE_USED: std::cell::Cell<bool> = std::cell::Cell::new(false);
 }
 
 fn f(x: f64) -> Value {
@@ -62,6 +66,69 @@ fn arr_len(rng: &mut Rng) -> usize {
     }
 }
 
+/// Numbers that are distinct but only a few ulps apart, next to well-separated ones:
+/// the ordering functions (sort, max, min and the *_by family) order by the numeric
+/// value itself, so a neighbour must still sort after / win over its neighbour.
+/// (Never used for functions that compare with `==`, which this crate makes tolerant.)
+fn close_num(rng: &mut Rng) -> Value {
+    const BASES: [f64; 8] = [0.3, 1.0, 0.1, 1e15, -2.5, 1e-7, 123456.789, -1e300];
+    let b = BASES[rng.below(BASES.len())];
+    let k = [0i64, 0, 1, 1, 2, 3, -1, -2][rng.below(8)];
+    CLOSE_USED.with(|c| c.set(true));
+    f(f64::from_bits((b.to_bits() as i64 + if b < 0.0 { -k } else { k }) as u64))
+}
+
+/// Sizes around the thresholds where sorting implementations switch strategy.
+fn sort_len(rng: &mut Rng) -> usize {
+    match rng.below(10) {
+        0 => 30 + rng.below(8),
+        1 => 60 + rng.below(10),
+        2 => 65 + rng.below(200),
+        _ => arr_len(rng),
+    }
+}
+
+/// Rearranges an array of sort keys (or records, by `key`) into one of the classic
+/// shapes sorting code special-cases: already ascending, descending with ties,
+/// all equal, ascending with one element out of place, two runs.
+fn arrange(rng: &mut Rng, xs: &mut Vec<Value>, key: impl Fn(&Value) -> Value) {
+    let by = |a: &Value, b: &Value| order(&key(a), &key(b));
+    match rng.below(9) {
+        0 => xs.sort_by(by),
+        1 => {
+            xs.sort_by(by);
+            xs.reverse();
+        }
+        2 => {
+            // weakly descending, ties keep their original relative order
+            xs.sort_by(|a, b| by(b, a));
+        }
+        3 => {
+            if let Some(first) = xs.first().cloned() {
+                let k = key(&first);
+                let n = xs.len();
+                let keep: Vec<Value> = xs.iter().filter(|x| order(&key(x), &k) == Ordering::Equal).cloned().collect();
+                if !keep.is_empty() {
+                    *xs = (0..n).map(|i| keep[i % keep.len()].clone()).collect();
+                }
+            }
+        }
+        4 => {
+            xs.sort_by(by);
+            if xs.len() > 2 {
+                let (i, j) = (rng.below(xs.len()), rng.below(xs.len()));
+                xs.swap(i, j);
+            }
+        }
+        5 => {
+            let mid = xs.len() / 2;
+            xs[..mid].sort_by(by);
+            xs[mid..].sort_by(|a, b| by(b, a));
+        }
+        _ => {}
+    }
+}
+
 fn records(rng: &mut Rng, key_kind: usize) -> Value {
     // unique ids, few distinct keys (heavy duplicates): stability is observable
     let n = arr_len(rng);
@@ -86,6 +153,48 @@ fn records(rng: &mut Rng, key_kind: usize) -> Value {
                 if rng.chance(1, 3) {
                     m.insert("o".into(), Value::Null);
                 }
+                Value::Object(m)
+            })
+            .collect(),
+    )
+}
+
+/// Records for the ordering functions: as `records`, plus near-equal keys, longer
+/// arrays and pre-arranged key orders. Ids are assigned after arranging, so the
+/// position in the input stays readable from the element.
+fn records_for_sorting(rng: &mut Rng, key_kind: usize) -> Value {
+    let n = sort_len(rng);
+    let closek = rng.chance(1, 5);
+    let mut keys: Vec<Value> = (0..n)
+        .map(|_| {
+            if closek {
+                return close_num(rng);
+            }
+            match key_kind {
+                0 => json!(rng.range(0, 4)),
+                1 => Value::String(few_strings(rng)),
+                2 => {
+                    if rng.chance(1, 2) {
+                        json!(rng.range(0, 3))
+                    } else {
+                        f(rng.range(0, 6) as f64 / 2.0)
+                    }
+                }
+                _ => num(rng),
+            }
+        })
+        .collect();
+    // mixed number / string keys are a type error for the *_by family: arrange only uniform key sets
+    if keys.iter().all(|k| k.is_number()) || keys.iter().all(|k| k.is_string()) {
+        arrange(rng, &mut keys, |k| k.clone());
+    }
+    Value::Array(
+        keys.into_iter()
+            .enumerate()
+            .map(|(i, k)| {
+                let mut m = Map::new();
+                m.insert("id".into(), json!(i));
+                m.insert("k".into(), k);
                 Value::Object(m)
             })
             .collect(),
@@ -157,11 +266,30 @@ fn gen_args(name: &str, rng: &mut Rng) -> Vec<A> {
             let e = ["&k", "&@", "&id", "&o", "&[id, k]", "&{x: k}", "&nope", "&k == `1`"][rng.below(8)];
             { let kk = rng.below(4); vec![A::E(e), A::V(records(rng, kk))] }
         }
-        "max" | "min" | "sort" => vec![A::V(if rng.chance(1, 2) { nums(rng) } else { strs(rng) })],
+        "max" | "min" | "sort" => {
+            let mut xs: Vec<Value> = match rng.below(5) {
+                0 | 1 => nums(rng).as_array().cloned().unwrap_or_default(),
+                2 | 3 => strs(rng).as_array().cloned().unwrap_or_default(),
+                _ => (0..sort_len(rng)).map(|_| close_num(rng)).collect(),
+            };
+            if rng.chance(1, 3) {
+                let extra = sort_len(rng);
+                while !xs.is_empty() && xs.len() < extra {
+                    let x = xs[rng.below(xs.len())].clone();
+                    xs.push(x);
+                }
+            }
+            arrange(rng, &mut xs, |k| k.clone());
+            vec![A::V(Value::Array(xs))]
+        }
         "max_by" | "min_by" | "sort_by" => {
             let kk = rng.below(4);
             let e = ["&k", "&k", "&k", "&id", "&to_string(k)", "&length(to_string(id))"][rng.below(6)];
-            vec![A::V(records(rng, kk)), A::E(e)]
+            if rng.chance(1, 2) {
+                vec![A::V(records(rng, kk)), A::E(e)]
+            } else {
+                vec![A::V(records_for_sorting(rng, kk)), A::E(e)]
+            }
         }
         "merge" => (0..rng.below(4) + 1).map(|_| A::V(obj(rng))).collect(),
         "not_null" => (0..rng.below(4) + 1)
@@ -240,8 +368,9 @@ pub fn run(args: &Args) {
 
 fn direct_call(rep: &mut Report, ev: &Evaluator, strict: &Opts, rng: &mut Rng, i: u64) {
     let name = refimpl::eval::BUILTIN_NAMES[rng.below(26)];
+    CLOSE_USED.with(|c| c.set(false));
     let a = gen_args(name, rng);
-    let use_paths = rng.chance(1, 2);
+    let use_paths = rng.chance(1, 2) || CLOSE_USED.with(|c| c.get());
     let mut doc = Map::new();
     let mut texts = vec![];
     let mut ref_args = vec![];
